@@ -46,7 +46,7 @@ func genSize(t *rapid.T) int {
 	case 5:
 		return rapid.IntRange(3, inlineThreshold-13).Draw(t, "small")
 	case 6:
-		return rapid.SampledFrom([]int{2047, 2048, 2049, 4096}).Draw(t, "ssz")
+		return rapid.SampledFrom([]int{2047, 2048, 2049, 4096, 16383, 16384, 16384, 16385, 127, 128}).Draw(t, "ssz") // SSZ limits and the boundaries of the stream's length prefix
 	default:
 		return rapid.IntRange(inlineThreshold+13, 65536).Draw(t, "large")
 	}
